@@ -1183,6 +1183,12 @@ class Exec:
         base = unbox_handle(self, base)
         if isinstance(base, Obj) and hasattr(base, 'setitem'):
             return base.setitem(self, st, idx, v, target)
+        if isinstance(base, DictVal) and z3.is_string_value(idx):
+            # a dict literal created by the function itself (fresh, private): record the store (unit hook may inspect it)
+            st = st.fork()
+            st.ghost['stores'] = st.ghost.get('stores', ()) + ((base, idx.as_string(), v),)
+            base.items[idx.as_string()] = v
+            return [('ok', st, None)]
         if is_z3(base) and base.sort() == Val:
             model = self.sym_models.get(ast.unparse(target.value))
             if model is not None and hasattr(model, 'setitem'):
